@@ -80,4 +80,108 @@ def namesInIteration (G : String → Bool) : List Ast → Bool
 termination_by structural items => items
 end
 
+/-! ## the syntactically free names (`freeIn`)
+
+`freeIn G a`: every name that is looked up by the closure built for `a` *outside the constructs of `a` that
+bind it* satisfies `G`.  The binders are those of the code: the body of a `for` sees the iteration variables
+and `partial` (`ForExpressionEvaluator::evaluate` pushes the iteration context with `partial` set), the
+satisfies-expression of a `some` / `every` sees the quantified variables, a context entry sees the keys of the
+entries written before it (`build_context` sets every evaluated entry in the context it pushed).  The domains of
+an iteration are all evaluated in the enclosing scope (a later domain does not see an earlier variable: finding
+F69), so they are checked against `G` alone.  A filter binds nothing here: `build_filter` evaluates the filter
+expression once more in the *enclosing* scope to see whether it is an index, so `item` (and an entry name of a
+filtered context) is looked up there as well (`Props/C01.lean`, `filter_does_not_bind_item_counterexample`).
+A function body is not evaluated where it is written: it is checked when it is entered, against `G` and the
+parameters that invocation binds (`Lemmas/EvalFreeSyn.lean`, `guardB`).
+-/
+
+/-- the variables an iteration context list declares (exactly the items `build_for` makes states of) -/
+def iterVars : List Ast → List String
+  | [] => []
+  | .iterationContextSingle (.name n) _ :: items => n :: iterVars items
+  | .iterationContextRange (.name n) _ _ :: items => n :: iterVars items
+  | _ :: items => iterVars items
+
+/-- the variables a quantified context list declares -/
+def quantVars : List Ast → List String
+  | [] => []
+  | .quantifiedContext (.name n) _ :: items => n :: quantVars items
+  | _ :: items => quantVars items
+
+/-- the key a context entry is written under, when it can be read off the tree -/
+def entryKey : Ast → Option String
+  | .contextEntry (.contextEntryKey n) _ => some n
+  | _ => none
+
+/-- `G` and the names in `vs` -/
+def orVars (G : String → Bool) (vs : List String) : String → Bool := fun k => G k || vs.contains k
+
+/-- `G` and the key of the entry `e` -/
+def orKey (G : String → Bool) (e : Ast) : String → Bool := fun k => G k || (entryKey e == some k)
+
+mutual
+def freeIn (G : String → Bool) : Ast → Bool
+  | .name n => G n
+  | .qualifiedName xs => qnIn G xs
+  | .add a b | .and a b | .contextEntry a b | .contextTypeEntry a b | .div a b | .eq a b | .exp a b
+  | .filter a b | .formalParameter a b | .functionDefinition a b | .functionType a b | .ge a b
+  | .gt a b | .in a b | .instanceOf a b | .le a b | .lt a b | .mul a b | .nq a b | .or a b
+  | .out a b | .range a b | .sub a b => freeIn G a && freeIn G b
+  | .between a b c | .if a b c => freeIn G a && freeIn G b && freeIn G c
+  | .context xs => freeInEntries G xs
+  | .contextType xs | .expressionList xs | .formalParameters xs | .list xs
+  | .namedParameters xs | .negatedList xs | .parameterTypes xs => freeInList G xs
+  | .evaluatedExpression a | .intervalEnd a _ | .intervalStart a _ | .listType a | .neg a
+  | .rangeType a | .unaryGe a | .unaryGt a | .unaryLe a | .unaryLt a => freeIn G a
+  | .every ctxs sat | .some ctxs sat =>
+    match ctxs, sat with
+    | .quantifiedContexts items, .satisfies body =>
+      freeInQuantified G items && freeIn (orVars G (quantVars items)) body
+    | _, _ => true
+  | .for ctxs body =>
+    match ctxs with
+    | .iterationContexts items =>
+      freeInIteration G items && freeIn (fun k => G k || (iterVars items).contains k || k == "partial") body
+    | _ => freeIn (fun k => G k || k == "partial") body
+  | .functionInvocation f args =>
+    match args with
+    | .positionalParameters xs => freeIn G f && freeInList G xs
+    | .namedParameters xs => freeIn G f && freeInList G xs
+    | _ => true
+  | .namedParameter n v =>
+    match n with
+    | .parameterName _ => freeIn G v
+    | _ => true
+  | .path a b =>
+    match b with
+    | .name _ => freeIn G a
+    | _ => true
+  | _ => true
+termination_by structural a => a
+def freeInList (G : String → Bool) : List Ast → Bool
+  | [] => true
+  | a :: as => freeIn G a && freeInList G as
+termination_by structural as => as
+/-- the entries of a context literal: entry *k* may look up the keys of the entries before it -/
+def freeInEntries (G : String → Bool) : List Ast → Bool
+  | [] => true
+  | e :: es => freeIn G e && freeInEntries (orKey G e) es
+termination_by structural es => es
+def freeInQuantified (G : String → Bool) : List Ast → Bool
+  | [] => true
+  | item :: items =>
+    (match item with
+      | .quantifiedContext (.name _) e => freeIn G e
+      | _ => true) && freeInQuantified G items
+termination_by structural items => items
+def freeInIteration (G : String → Bool) : List Ast → Bool
+  | [] => true
+  | item :: items =>
+    (match item with
+      | .iterationContextSingle (.name _) e => freeIn G e
+      | .iterationContextRange (.name _) lo hi => freeIn G lo && freeIn G hi
+      | _ => true) && freeInIteration G items
+termination_by structural items => items
+end
+
 end Dmn.Eval
